@@ -3,7 +3,7 @@ in-place write site (R-OWN). Observational equality of values is not needed: no 
 import ast
 import re
 
-from ..core import (AnalysisError, phase_helpers, body_nodes, call_name, dotted, is_self_attr, key_text, kwarg,
+from ..core import (AnalysisError, assigned_targets, phase_helpers, split_assign, body_nodes, call_name, dotted, is_self_attr, key_text, kwarg,
                     params, parent, stmts_of, unparse)
 from ..own import BENIGN_INPLACE, OWN_LISTS, FuncInfo, Own, join
 
@@ -501,6 +501,70 @@ def check_param_icall(prog, rep, inplace):
     return n
 
 
+def check_attr_alias_writes(prog, rep, modules):
+    """`self.A = p` stores a reference to the parameter p; a later store through it
+    (`self.A.x = ..`, `self.A[k] = ..`, in-place method) in the same function changes the caller's
+    object unless `self.A` was re-bound to something else on every path before."""
+    from ..cfg import CFG
+    inplace = inplace_names(prog)
+    n = 0
+    for rel in modules:
+        m = prog.module(rel)
+        for q, f in m.functions.items():
+            if q.count('.') != 1:
+                continue
+            pm = set(params(f)) - {'self', 'cls'}
+            alias = {}
+            for st in stmts_of(f):
+                for t, v in split_assign(st):
+                    if is_self_attr(t) and isinstance(v, ast.Name) and v.id in pm:
+                        alias[t.attr] = (v.id, st)
+            if not alias:
+                continue
+            cfg = None
+            for st in stmts_of(f):
+                hits = []
+                for t in assigned_targets(st):
+                    b = t
+                    while isinstance(b, (ast.Attribute, ast.Subscript)):
+                        if isinstance(b.value, ast.Attribute) and is_self_attr(b.value) and \
+                                b.value.attr in alias and b is not t or (
+                                    isinstance(b.value, ast.Attribute) and is_self_attr(b.value)
+                                    and b.value.attr in alias):
+                            hits.append((b.value.attr, unparse(t)))
+                            break
+                        b = b.value
+                if isinstance(st, ast.Expr) and isinstance(st.value, ast.Call) and \
+                        isinstance(st.value.func, ast.Attribute) and \
+                        st.value.func.attr in inplace and is_self_attr(st.value.func.value) and \
+                        st.value.func.value.attr in alias:
+                    hits.append((st.value.func.value.attr, unparse(st.value)[:50]))
+                for attr, what in hits:
+                    p_, st0 = alias[attr]
+                    if st.lineno <= st0.lineno:
+                        continue
+                    n += 1
+                    cfg = cfg or CFG(f)
+
+                    def rebound(nd, attr=attr, p_=p_, st0=st0):
+                        s2 = nd.stmt
+                        if s2 is None or s2 is st0:
+                            return False
+                        return any(is_self_attr(t2, attr) and not (
+                            isinstance(v2, ast.Name) and v2.id == p_) and
+                            not isinstance(t2, ast.Subscript) for t2, v2 in split_assign(s2))
+                    ok = cfg.dominators_like_before(st, rebound)
+                    rep.instance('OWN-attr-alias', {'function': q, 'attr': attr, 'param': p_,
+                                                    'write': what, 'rebound_before': ok})
+                    if not ok:
+                        rep.violation('OWN-attr-alias', m, q, 'alias-write:%s' % attr,
+                                      '`self.%s` is the object passed in as `%s`; `%s` stores '
+                                      'through it, so the caller\'s object changes (and the '
+                                      'change accumulates when the object is used again)' %
+                                      (attr, p_, key_text(st)[:80]), st.lineno)
+    return n
+
+
 def check_network_copies(prog, rep):
     """MPS/MPO constructors and copy() store copies of the tensors"""
     for rel, qual, attr in ((MPS, 'MPS.__init__', '_B'), (MPS, 'MPS.copy', '_B'),
@@ -550,6 +614,8 @@ def run(prog, rep, tier):
     rep.rule('OWN-make_valid', 'make_valid does not write its argument')
     rep.rule('OWN-param-icall', 'public functions of mps.py / mpo.py do not call in-place Array '
              'methods on tensors received as parameters')
+    rep.rule('OWN-attr-alias', 'no store through self.A while self.A still is the parameter it was '
+             'assigned from (must-precede of a re-binding on the CFG)')
     rep.rule('OWN-network-copy', 'MPS/MPO constructors and copy() store copies of tensors')
     inplace = inplace_names(prog)
     modules = [NPC, CH, SPARSE, TRUNC, KRY]
@@ -599,6 +665,7 @@ def run(prog, rep, tier):
     check_inplace_flag(prog, rep)
     check_network_copies(prog, rep)
     check_borrowed(prog, rep)
+    check_attr_alias_writes(prog, rep, modules)
     if check_param_icall(prog, rep, inplace) < 2:
         raise AnalysisError('OWN-param-icall: the confirmed instances were not found')
     rep.floor('OWN-write', 150)
